@@ -13,11 +13,6 @@ open Goml.Dce (keys scopeErrs scopeErrsStmt scopeErrsCases scopeErrsTCases shape
 
 attribute [local irreducible] Goml.GoCompile.vn Goml.GoCompile.gid Goml.GoCompile.rn
 
-/-- scope after a statement list (top-level declarations added) -/
-def scopeAfter : List GStmt → Names → Names
-  | [], sc => sc
-  | s :: rest, sc => scopeAfter rest (declScope s sc)
-
 /-- the two properties T2 is about -/
 def Clean (D sc : Names) (S : List GStmt) : Prop := scopeErrs D sc S = [] ∧ shapeOK S = true
 
@@ -37,28 +32,6 @@ theorem clean_append {D : Names} : ∀ {a b : List GStmt} {sc : Names}, Clean D 
     rw [scopeErrs] at ha1; rw [shapeOK] at ha2
     simp only [List.append_eq_nil_iff, Bool.and_eq_true] at ha1 ha2
     exact clean_cons ha1.1 ha2.1 (clean_append ⟨ha1.2, ha2.2⟩ (by simpa [scopeAfter] using hb))
-
-theorem scopeAfter_sub : ∀ (a : List GStmt) (sc : Names) (y : String), y ∈ scopeAfter a sc → y ∈ sc ∨ y ∈ ndDecls a
-  | [], sc, y, h => Or.inl h
-  | s :: a, sc, y, h => by
-    rcases scopeAfter_sub a _ y h with h | h
-    · cases s <;> simp only [declScope] at h <;> first
-        | exact Or.inl h
-        | (rcases List.mem_cons.mp h with rfl | h
-           · exact Or.inr (by simp [ndDecls, ndDeclsOf])
-           · exact Or.inl h)
-    · exact Or.inr (by rw [ndDecls_cons]; exact List.mem_append_right _ h)
-
-theorem scopeAfter_sup : ∀ (a : List GStmt) (sc : Names) (y : String), y ∈ sc → y ∈ scopeAfter a sc
-  | [], sc, y, h => h
-  | s :: a, sc, y, h => by
-    apply scopeAfter_sup a
-    cases s <;> simp only [declScope] <;> first | exact h | exact List.mem_cons_of_mem _ h
-
-theorem scopeAfter_append (a b : List GStmt) (sc : Names) : scopeAfter (a ++ b) sc = scopeAfter b (scopeAfter a sc) := by
-  induction a generalizing sc with
-  | nil => rfl
-  | cons s a ih => simp [scopeAfter, ih]
 
 theorem scopeAfter_varDecl (x : String) (ty : GTy) (v : Option GExpr) (rest : List GStmt) (sc : Names) :
     scopeAfter (.varDecl x ty v :: rest) sc = scopeAfter rest (x :: sc) := rfl
@@ -410,15 +383,124 @@ structure SCtx (file : AFile) (G : List String) (D sc : Names) (Γ : Ctx) (cs : 
   cal : ∀ f, f ∈ cs → ¬ f ∈ D ∧ f ≠ "_"
   fns : ∀ e, e ∈ fnSigs file G → ¬ vn e.1 ∈ D ∧ vn e.1 ≠ "_"
 
-/-- the names `ds` are new, pairwise distinct locals of the function -/
-def DeclOKN (D sc : Names) (ds : Names) : Prop :=
-  ds.Nodup ∧ ∀ y, y ∈ ds → ¬ y ∈ sc ∧ y ∈ D ∧ y ≠ "_"
+/-- the test a declared name passes in T2: a local of the function, not `_` -/
+def declOKB (D : Names) (x : String) : Bool := D.contains x && x != "_"
 
-/-- the declarations of `S` are new, pairwise distinct locals of the function -/
-abbrev DeclOK (D sc : Names) (S : List GStmt) : Prop := DeclOKN D sc (ndDecls S)
+/-- the `var` declarations of `S` are locals of the function, not `_`, and new in their scope (block-scoped: `sokB`) -/
+abbrev DeclOK (D sc : Names) (S : List GStmt) : Prop := sokB (declOKB D) sc S = true
 
-theorem DeclOKN.sub {D sc ds ds'} (h : DeclOKN D sc ds) (hs : ds'.Sublist ds) : DeclOKN D sc ds' :=
-  ⟨hs.nodup h.1, fun y hy => h.2 y (hs.subset hy)⟩
+theorem declOKB_spec {D : Names} {x : String} (h : declOKB D x = true) : x ∈ D ∧ x ≠ "_" := by
+  simpa [declOKB] using h
+
+theorem DeclOK.varDecl {D sc : Names} {x : String} {T : GTy} {v : Option GExpr} {rest : List GStmt}
+    (h : DeclOK D sc (.varDecl x T v :: rest)) : (¬ x ∈ sc ∧ x ∈ D ∧ x ≠ "_") ∧ DeclOK D (x :: sc) rest := by
+  simp only [DeclOK, sokB, sokStmtB, Goml.Dce.declScope, Bool.and_eq_true, Bool.not_eq_true', List.contains_eq_mem,
+    decide_eq_false_iff_not] at h
+  exact ⟨⟨h.1.1, declOKB_spec h.1.2⟩, h.2⟩
+
+theorem DeclOK.append {D sc : Names} {a b : List GStmt} (h : DeclOK D sc (a ++ b)) :
+    DeclOK D sc a ∧ DeclOK D (scopeAfter a sc) b := by
+  simpa only [DeclOK, sokB_append, Bool.and_eq_true] using h
+
+theorem DeclOK.top {D sc : Names} {S : List GStmt} (h : DeclOK D sc S) : ∀ y, y ∈ topDecls S → ¬ y ∈ sc ∧ y ∈ D ∧ y ≠ "_" :=
+  fun y hy => ⟨(sokB_top S sc h y hy).2, declOKB_spec (sokB_top S sc h y hy).1⟩
+
+mutual
+/-- nothing declared anywhere inside is a name of the enclosing scope -/
+theorem sokB_nd {ok : String → Bool} : ∀ (S : List GStmt) (K : Names), sokB ok K S = true → ∀ y, y ∈ ndDecls S → ¬ y ∈ K
+  | [], _, _, y, hy => by simp [ndDecls] at hy
+  | s :: rest, K, h, y, hy => by
+    simp only [sokB, Bool.and_eq_true] at h
+    rw [ndDecls_cons, List.mem_append] at hy
+    rcases hy with hy | hy
+    · exact sokStmtB_nd s K h.1 y hy
+    · have := sokB_nd rest _ h.2 y hy
+      intro hk
+      apply this
+      cases s <;> simp only [Goml.Dce.declScope] <;> first | exact hk | exact List.mem_cons_of_mem _ hk
+theorem sokStmtB_nd {ok : String → Bool} : ∀ (s : GStmt) (K : Names), sokStmtB ok K s = true → ∀ y, y ∈ ndDeclsOf s → ¬ y ∈ K
+  | .varDecl x _ _, K, h, y, hy => by
+    simp only [sokStmtB, Bool.and_eq_true, Bool.not_eq_true', List.contains_eq_mem, decide_eq_false_iff_not] at h
+    simp only [ndDeclsOf, List.mem_singleton] at hy; subst hy; exact h.1
+  | .ite _ t none, K, h, y, hy => by
+    simp only [sokStmtB, Bool.and_true] at h
+    simp only [ndDeclsOf, List.append_nil] at hy; exact sokB_nd t K h y hy
+  | .ite _ t (some e), K, h, y, hy => by
+    simp only [sokStmtB, Bool.and_eq_true] at h
+    simp only [ndDeclsOf, List.mem_append] at hy
+    exact hy.elim (sokB_nd t K h.1 y) (sokB_nd e K h.2 y)
+  | .loop b, K, h, y, hy => by
+    simp only [sokStmtB] at h; simp only [ndDeclsOf] at hy; exact sokB_nd b K h y hy
+  | .switch _ cs none, K, h, y, hy => by
+    simp only [sokStmtB, Bool.and_true] at h
+    simp only [ndDeclsOf, List.append_nil] at hy; exact sokCasesB_nd cs K h y hy
+  | .switch _ cs (some d), K, h, y, hy => by
+    simp only [sokStmtB, Bool.and_eq_true] at h
+    simp only [ndDeclsOf, List.mem_append] at hy
+    exact hy.elim (sokCasesB_nd cs K h.1 y) (sokB_nd d K h.2 y)
+  | .tswitch _ _ cs none, K, h, y, hy => by
+    simp only [sokStmtB, Bool.and_true] at h
+    simp only [ndDeclsOf, List.append_nil] at hy; exact sokTCasesB_nd cs K h y hy
+  | .tswitch _ _ cs (some d), K, h, y, hy => by
+    simp only [sokStmtB, Bool.and_eq_true] at h
+    simp only [ndDeclsOf, List.mem_append] at hy
+    exact hy.elim (sokTCasesB_nd cs K h.1 y) (sokB_nd d K h.2 y)
+  | .expr _, _, _, y, hy | .go _, _, _, y, hy | .assign _ _, _, _, y, hy | .fieldAssign _ _, _, _, y, hy
+  | .ptrAssign _ _, _, _, y, hy | .indexAssign _ _ _, _, _, y, hy | .ret _, _, _, y, hy | .brk, _, _, y, hy => by
+    simp [ndDeclsOf] at hy
+theorem sokCasesB_nd {ok : String → Bool} : ∀ (cs : List GCase) (K : Names), sokCasesB ok K cs = true → ∀ y, y ∈ ndDeclsCases cs → ¬ y ∈ K
+  | [], _, _, y, hy => by simp [ndDeclsCases] at hy
+  | .mk _ b :: rest, K, h, y, hy => by
+    simp only [sokCasesB, Bool.and_eq_true] at h
+    simp only [ndDeclsCases, List.mem_append] at hy
+    exact hy.elim (sokB_nd b K h.1 y) (sokCasesB_nd rest K h.2 y)
+theorem sokTCasesB_nd {ok : String → Bool} : ∀ (cs : List GTCase) (K : Names), sokTCasesB ok K cs = true → ∀ y, y ∈ ndDeclsTCases cs → ¬ y ∈ K
+  | [], _, _, y, hy => by simp [ndDeclsTCases] at hy
+  | .mk _ b :: rest, K, h, y, hy => by
+    simp only [sokTCasesB, Bool.and_eq_true] at h
+    simp only [ndDeclsTCases, List.mem_append] at hy
+    exact hy.elim (sokB_nd b K h.1 y) (sokTCasesB_nd rest K h.2 y)
+end
+
+/-- the clauses of a `switch` and its default, each its own block -/
+def DeclOKA (D sc : Names) (ra : List (Imm × List GStmt)) (rd : Option (List GStmt)) : Prop :=
+  (∀ p, p ∈ ra → DeclOK D sc p.2) ∧ (match rd with | some b => DeclOK D sc b | none => True)
+
+theorem declOKA_of_tswitch {D sc : Names} {env : Env} {b : Option String} {e : GExpr} {ra : List (Imm × List GStmt)}
+    {rd : Option (List GStmt)} (h : DeclOK D sc [.tswitch b e (typeCases env ra) rd]) : DeclOKA D sc ra rd := by
+  cases rd with
+  | none =>
+    simp only [DeclOK, sokB, sokStmtB, Bool.and_eq_true, Bool.and_true] at h
+    exact ⟨fun p hp => (sokT_typeCases env _ ra).mp h p hp, trivial⟩
+  | some d =>
+    simp only [DeclOK, sokB, sokStmtB, Bool.and_eq_true, Bool.and_true] at h
+    exact ⟨fun p hp => (sokT_typeCases env _ ra).mp h.1 p hp, h.2⟩
+
+theorem declOKA_of_switch {D sc : Names} {k : MatchKind} {e : GExpr} {ra : List (Imm × List GStmt)}
+    {rd : Option (List GStmt)} (h : DeclOK D sc [.switch e (valueCases k ra) rd]) : DeclOKA D sc ra rd := by
+  cases rd with
+  | none =>
+    simp only [DeclOK, sokB, sokStmtB, Bool.and_eq_true, Bool.and_true] at h
+    exact ⟨fun p hp => (sokC_valueCases k _ ra).mp h p hp, trivial⟩
+  | some d =>
+    simp only [DeclOK, sokB, sokStmtB, Bool.and_eq_true, Bool.and_true] at h
+    exact ⟨fun p hp => (sokC_valueCases k _ ra).mp h.1 p hp, h.2⟩
+
+/-- nothing the clauses declare (nested included) is a name of the enclosing scope -/
+theorem DeclOKA.nd {D sc : Names} {ra : List (Imm × List GStmt)} {rd : Option (List GStmt)} (h : DeclOKA D sc ra rd) :
+    (∀ y, y ∈ armDecls ra → ¬ y ∈ sc) ∧ (∀ y, y ∈ optDecls rd → ¬ y ∈ sc) := by
+  refine ⟨?_, ?_⟩
+  · induction ra with
+    | nil => intro y hy; simp [armDecls] at hy
+    | cons p rest ih =>
+      intro y hy
+      simp only [armDecls, List.mem_append] at hy
+      rcases hy with hy | hy
+      · exact sokB_nd p.2 sc (h.1 p List.mem_cons_self) y hy
+      · exact ih ⟨fun q hq => h.1 q (List.mem_cons_of_mem _ hq), h.2⟩ y hy
+  · cases rd with
+    | none => intro y hy; simp [optDecls] at hy
+    | some d => intro y hy; exact sokB_nd d sc h.2 y hy
 
 def TgtSc (m : Mode) (Γ : Ctx) (sc : Names) : Prop :=
   match m with
@@ -427,9 +509,6 @@ def TgtSc (m : Mode) (Γ : Ctx) (sc : Names) : Prop :=
 
 theorem SCtx.mono_cs {D sc Γ cs cs'} (h : SCtx file G D sc Γ cs) (hs : ∀ f, f ∈ cs' → f ∈ cs) : SCtx file G D sc Γ cs' :=
   ⟨h.vars, h.scD, h.nob, fun f hf => h.cal f (hs f hf), h.fns⟩
-
-theorem DeclOK.sub {D sc S S'} (h : DeclOK D sc S) (hs : (ndDecls S').Sublist (ndDecls S)) : DeclOK D sc S' :=
-  ⟨hs.nodup h.1, fun y hy => h.2 y (hs.subset hy)⟩
 
 /-- an expression whose variables come from the context is clean at this point -/
 theorem expr_ok {D sc : Names} {Γ : Ctx} {cs : List String} (hctx : SCtx file G D sc Γ cs) {e : GExpr}
@@ -610,28 +689,19 @@ theorem scopeA {env : Env} {file : AFile} {G : List String} {D : Names} :
     obtain ⟨hfv, hfb⟩ := hfrag
     rw [compileA_let] at hdecl ⊢
     have hctxv : SCtx file G D sc Γ (calleesC (Γ.map (·.1)) v) := hctx.mono_cs (fun f hf => by simp [calleesA, hf])
-    have hda := hdecl.1; rw [ndDecls_append] at hda
-    obtain ⟨hndP, hndR, hdisj⟩ := List.nodup_append.mp hda
+    obtain ⟨hdP, hdR⟩ := hdecl.append
     by_cases hctl : isCtl v = true
     · -- `var x T` then the statements that assign it
-      simp only [letPrefix, letBodySt, hctl, if_true] at hdecl hndP hndR hdisj ⊢
+      simp only [letPrefix, letBodySt, hctl, if_true] at hdP hdR ⊢
       generalize hd : compileTail env (.assign (rn x)) (st.check (okTy (cexprTastTy env v))) v = d at *
-      have hxin := hdecl.2 (vn x) (by rw [ndDecls_append, ndDecls_varDecl]; simp)
-      rw [ndDecls_varDecl] at hndP
-      obtain ⟨hxnd, hndd⟩ := List.nodup_cons.mp hndP
+      obtain ⟨hxin, hdecl1⟩ := hdP.varDecl
+      rw [scopeAfter_varDecl] at hdR
       have hvd := varDecl_ok (ty := cexprTy env v) (v := none) hxin.1 hxin.2.1 hxin.2.2 (by simp [undecl]) rfl rfl
       -- the assigning statements, with `x` declared
       have hctx1 : SCtx file G D (vn x :: sc) Γ (calleesC (Γ.map (·.1)) v) :=
         ⟨fun y t hy => List.mem_cons_of_mem _ (hctxv.vars y t hy),
          fun y hy => by rcases List.mem_cons.mp hy with rfl | hy; exact hxin.2.1; exact hctxv.scD y hy,
          fun h => by rcases List.mem_cons.mp h with h | h; exact hxin.2.2 h.symm; exact hctxv.nob h, hctxv.cal, hctxv.fns⟩
-      have hdecl1 : DeclOK D (vn x :: sc) d.1 :=
-        ⟨hndd, fun y hy => by
-          have := hdecl.2 y (by rw [ndDecls_append, ndDecls_varDecl]; simp [hy])
-          refine ⟨fun h => ?_, this.2⟩
-          rcases List.mem_cons.mp h with rfl | h
-          · exact hxnd hy
-          · exact this.1 h⟩
       have htgt1 : TgtSc (.assign (rn x)) Γ (vn x :: sc) := by
         refine ⟨by rw [← vn_def]; exact List.mem_cons_self, fun y ty hy => ?_⟩
         rw [← vn_def]; exact fun e => hxin.1 (e ▸ hctxv.vars y ty hy)
@@ -641,8 +711,8 @@ theorem scopeA {env : Env} {file : AFile} {G : List String} {D : Names} :
       refine clean_append hpre ?_
       rw [scopeAfter_varDecl]
       -- the body, with `x` in scope
-      have hsub := scopeAfter_sub d.1 (vn x :: sc)
-      have hsup := scopeAfter_sup d.1 (vn x :: sc)
+      have hsub := fun y => (scopeAfter_mem d.1 (vn x :: sc) y).mp
+      have hsup : ∀ y, y ∈ vn x :: sc → y ∈ scopeAfter d.1 (vn x :: sc) := fun y h => (scopeAfter_mem d.1 (vn x :: sc) y).mpr (Or.inl h)
       have hctx2 : SCtx file G D (scopeAfter d.1 (vn x :: sc)) ((x, v.annTy) :: Γ) (calleesA (x :: Γ.map (·.1)) body) := by
         refine ⟨fun y t hy => ?_, fun y hy => ?_, fun h => ?_, fun f hf => hctx.cal f (by simp [calleesA, hf]), hctx.fns⟩
         · by_cases hxy : x = y
@@ -650,19 +720,11 @@ theorem scopeA {env : Env} {file : AFile} {G : List String} {D : Names} :
           · rw [lookupTy_cons_ne _ _ hxy] at hy; exact hsup _ (List.mem_cons_of_mem _ (hctx.vars y t hy))
         · rcases hsub y hy with h | h
           · exact hctx1.scD y h
-          · exact hdecl1.2 y h |>.2.1
+          · exact (hdecl1.top y h).2.1
         · rcases hsub _ h with h | h
           · exact hctx1.nob h
-          · exact (hdecl1.2 _ h).2.2 rfl
-      have hdecl2 : DeclOK D (scopeAfter d.1 (vn x :: sc)) (compileA env m d.2 body).1 :=
-        ⟨hndR, fun y hy => by
-          have := hdecl.2 y (by rw [ndDecls_append]; exact List.mem_append_right _ hy)
-          refine ⟨fun h => ?_, this.2⟩
-          rcases hsub y h with h | h
-          · rcases List.mem_cons.mp h with rfl | h
-            · exact hdisj _ (by rw [ndDecls_varDecl]; exact List.mem_cons_self) _ hy rfl
-            · exact this.1 h
-          · exact hdisj _ (by rw [ndDecls_varDecl]; exact List.mem_cons_of_mem _ h) _ hy rfl⟩
+          · exact (hdecl1.top _ h).2.2 rfl
+      have hdecl2 : DeclOK D (scopeAfter d.1 (vn x :: sc)) (compileA env m d.2 body).1 := hdR
       have htgt2 : TgtSc m ((x, v.annTy) :: Γ) (scopeAfter d.1 (vn x :: sc)) := by
         cases m with
         | effect => trivial
@@ -685,16 +747,18 @@ theorem scopeA {env : Env} {file : AFile} {G : List String} {D : Names} :
         have hty : ty' = .unit := by
           obtain ⟨_, _, _, _, _, h, _⟩ := compileGo_shape hfv; exact h
         subst hty
-        simp only [letPrefix, letBodySt, isCtl, Bool.false_eq_true, if_false, compileBindSimple, CExpr.annTy] at hdecl hndP hndR hdisj hfb ⊢
-        have hdP : ndDecls [compileGo env e, GStmt.varDecl (vn x) .unit (some unitE)] = [vn x] := by
-          rw [hX]; simp [ndDecls, ndDeclsOf]
+        simp only [letPrefix, letBodySt, isCtl, Bool.false_eq_true, if_false, compileBindSimple, CExpr.annTy] at hdP hdR hfb ⊢
         have hds : declScope (compileGo env e) sc = sc := by rw [hX]; rfl
-        have hxin := hdecl.2 (vn x) (by rw [ndDecls_append, hdP]; simp)
+        have hsa : scopeAfter [compileGo env e, GStmt.varDecl (vn x) GTy.unit (some unitE)] sc = vn x :: sc := by
+          simp only [scopeAfter, hds]; rfl
+        rw [hsa] at hdR
+        have hdP' : DeclOK D sc [GStmt.varDecl (vn x) GTy.unit (some unitE)] := by
+          have := hdP; simp only [DeclOK, sokB, hds, Bool.and_eq_true] at this ⊢; exact ⟨this.2.1, trivial⟩
+        obtain ⟨hxin, -⟩ := hdP'.varDecl
         have hvd := varDecl_ok (D := D) (sc := sc) (x := vn x) (ty := GTy.unit) (v := some unitE) hxin.1 hxin.2.1 hxin.2.2
           (by simp [unitE, varsUsed, undecl]) (by simp [Goml.Dce.noBlockOpt, unitE, noBlockExpr]) (by simp [unitE, varsUsed])
         refine clean_append (clean_cons hg1 hg2 (by rw [hds]; exact clean_cons hvd.1 hvd.2 (clean_nil _ _))) ?_
-        rw [show scopeAfter [compileGo env e, GStmt.varDecl (vn x) GTy.unit (some unitE)] sc = vn x :: sc by
-          simp only [scopeAfter, hds]; rfl]
+        rw [hsa]
         have hctx2 : SCtx file G D (vn x :: sc) ((x, .unit) :: Γ) (calleesA (x :: Γ.map (·.1)) body) := by
           refine ⟨fun y t hy => ?_, fun y hy => ?_, fun h => ?_, fun f hf => hctx.cal f (by simp [calleesA, hf]), hctx.fns⟩
           · by_cases hxy : x = y
@@ -706,13 +770,7 @@ theorem scopeA {env : Env} {file : AFile} {G : List String} {D : Names} :
           · rcases List.mem_cons.mp h with h | h
             · exact hxin.2.2 h.symm
             · exact hctx.nob h
-        have hdecl2 : DeclOK D (vn x :: sc) (compileA env m (st.check (okBindSimple env (.go e .unit))) body).1 :=
-          ⟨hndR, fun y hy => by
-            have := hdecl.2 y (by rw [ndDecls_append]; exact List.mem_append_right _ hy)
-            refine ⟨fun h => ?_, this.2⟩
-            rcases List.mem_cons.mp h with rfl | h
-            · exact hdisj _ (by rw [hdP]; exact List.mem_cons_self) _ hy rfl
-            · exact this.1 h⟩
+        have hdecl2 : DeclOK D (vn x :: sc) (compileA env m (st.check (okBindSimple env (.go e .unit))) body).1 := hdR
         have htgt2 : TgtSc m ((x, .unit) :: Γ) (vn x :: sc) := by
           cases m with
           | effect => trivial
@@ -723,8 +781,9 @@ theorem scopeA {env : Env} {file : AFile} {G : List String} {D : Names} :
             · subst hxy; exact fun e => hxin.1 (e ▸ htk)
             · rw [lookupTy_cons_ne _ _ hxy] at hy; exact hne y ty hy
         exact scopeA body m _ _ _ _ hfb hctx2 hdecl2 htgt2
-      simp only [letPrefix, letBodySt, hctl', Bool.false_eq_true, if_false, bindSimple_shape x hfv hgoc] at hdecl hndP hndR hdisj ⊢
-      have hxin := hdecl.2 (vn x) (by rw [ndDecls_append, ndDecls_varDecl]; simp)
+      simp only [letPrefix, letBodySt, hctl', Bool.false_eq_true, if_false, bindSimple_shape x hfv hgoc] at hdP hdR ⊢
+      obtain ⟨hxin, -⟩ := hdP.varDecl
+      rw [scopeAfter_varDecl] at hdR
       obtain ⟨hfrom, hnb⟩ := cexpr_fromCtx hctl' hgoc hfv
       obtain ⟨h1, h2, _⟩ := expr_ok hctxv hfrom
       have hvd := varDecl_ok (ty := goTy v.annTy) (v := some (compileCExpr env v)) hxin.1 hxin.2.1 hxin.2.2 h1 hnb h2
@@ -741,13 +800,7 @@ theorem scopeA {env : Env} {file : AFile} {G : List String} {D : Names} :
         · rcases List.mem_cons.mp h with h | h
           · exact hxin.2.2 h.symm
           · exact hctx.nob h
-      have hdecl2 : DeclOK D (vn x :: sc) (compileA env m (st.check (okBindSimple env v)) body).1 :=
-        ⟨hndR, fun y hy => by
-          have := hdecl.2 y (by rw [ndDecls_append]; exact List.mem_append_right _ hy)
-          refine ⟨fun h => ?_, this.2⟩
-          rcases List.mem_cons.mp h with rfl | h
-          · exact hdisj _ (by rw [ndDecls_varDecl]; exact List.mem_cons_self) _ hy rfl
-          · exact this.1 h⟩
+      have hdecl2 : DeclOK D (vn x :: sc) (compileA env m (st.check (okBindSimple env v)) body).1 := hdR
       have htgt2 : TgtSc m ((x, v.annTy) :: Γ) (vn x :: sc) := by
         cases m with
         | effect => trivial
@@ -768,10 +821,13 @@ theorem scopeC {env : Env} {file : AFile} {G : List String} {D : Names} :
     simp only [compileTail] at hdecl ⊢
     obtain ⟨hfrom, hnb⟩ := imm_fromCtx env hc (calleesC (Γ.map (·.1)) (.ite c t e ty))
     obtain ⟨h1, h2, _⟩ := expr_ok hctx hfrom
+    have hdI : DeclOK D sc (compileA env m (st.check (okImm env c)) t).1 ∧
+        DeclOK D sc (compileA env m (compileA env m (st.check (okImm env c)) t).2 e).1 := by
+      simpa only [DeclOK, sokB, sokStmtB, Bool.and_eq_true, Bool.and_true] using hdecl
     have hT := scopeA t m (st.check (okImm env c)) Γ K sc hft (hctx.mono_cs (fun f hf => by simp [calleesC, hf]))
-      (hdecl.sub (by rw [ndDecls_ite]; exact List.sublist_append_left _ _)) htgt
+      hdI.1 htgt
     have hE := scopeA e m (compileA env m (st.check (okImm env c)) t).2 Γ K sc hfe (hctx.mono_cs (fun f hf => by simp [calleesC, hf]))
-      (hdecl.sub (by rw [ndDecls_ite]; exact List.sublist_append_right _ _)) htgt
+      hdI.2 htgt
     refine clean_cons ?_ ?_ (clean_nil _ _)
     · simp only [scopeErrsStmt, h1, hT.1, hE.1]; rfl
     · simp only [shapeOKStmt, hnb, h2, hT.2, hE.2]; rfl
@@ -784,51 +840,32 @@ theorem scopeC {env : Env} {file : AFile} {G : List String} {D : Names} :
     simp only [loopBody] at hdecl ⊢
     generalize hA : compileA env (.assign cv) st' c = rA at *
     generalize hB : compileA env .effect rA.2 b = rB at *
-    have hdeclS := tail_while_decls (gid cv) (rA.1 ++ [GStmt.ite (.un .not .bool (.var (gid cv) .bool)) [.brk] none] ++ rB.1) m
-    have hcvin := hdecl.2 (gid cv) (by rw [hdeclS]; exact List.mem_cons_self)
-    have hnd := hdecl.1; rw [hdeclS] at hnd
-    obtain ⟨hcvnd, hndB⟩ := List.nodup_cons.mp hnd
+    obtain ⟨hdW, -⟩ := hdecl.append
+    obtain ⟨hcvin, hdL⟩ := hdW.varDecl
+    have hdL' : DeclOK D (gid cv :: sc) (rA.1 ++ ([GStmt.ite (.un .not .bool (.var (gid cv) .bool)) [.brk] none] ++ rB.1)) := by
+      simpa only [DeclOK, sokB, sokStmtB, Bool.and_true, List.append_assoc] using hdL
+    obtain ⟨hdeclA, hdL2⟩ := hdL'.append
+    obtain ⟨-, hdeclB⟩ := hdL2.append
+    have hsaI : ∀ K', scopeAfter [GStmt.ite (.un .not .bool (.var (gid cv) .bool)) [.brk] none] K' = K' := fun _ => rfl
+    rw [hsaI] at hdeclB
     have hvd := varDecl_ok (ty := GTy.bool) (v := none) hcvin.1 hcvin.2.1 hcvin.2.2 (by simp [undecl]) rfl rfl
-    have hall : ndDecls (rA.1 ++ [GStmt.ite (.un .not .bool (.var (gid cv) .bool)) [.brk] none] ++ rB.1) =
-        ndDecls rA.1 ++ ndDecls rB.1 := by
-      simp [ndDecls_append, ndDecls, ndDeclsOf]
-    rw [hall] at hndB hcvnd
-    obtain ⟨hndA, hndBB, hdisjAB⟩ := List.nodup_append.mp hndB
-    have hin : ∀ y, y ∈ ndDecls rA.1 ++ ndDecls rB.1 → ¬ y ∈ sc ∧ y ∈ D ∧ y ≠ "_" := fun y hy =>
-      hdecl.2 y (by rw [hdeclS, hall]; exact List.mem_cons_of_mem _ hy)
     have hctx1 : SCtx file G D (gid cv :: sc) Γ (calleesA (Γ.map (·.1)) c ++ calleesA (Γ.map (·.1)) b) :=
       ⟨fun y t hy => List.mem_cons_of_mem _ (hctx.vars y t hy),
        fun y hy => by rcases List.mem_cons.mp hy with rfl | hy; exact hcvin.2.1; exact hctx.scD y hy,
        fun h => by rcases List.mem_cons.mp h with h | h; exact hcvin.2.2 h.symm; exact hctx.nob h,
        fun f hf => hctx.cal f (by simpa [calleesC] using hf), hctx.fns⟩
-    have hdeclA : DeclOK D (gid cv :: sc) rA.1 :=
-      ⟨hndA, fun y hy => by
-        have := hin y (List.mem_append_left _ hy)
-        refine ⟨fun h => ?_, this.2⟩
-        rcases List.mem_cons.mp h with rfl | h
-        · exact hcvnd (List.mem_append_left _ hy)
-        · exact this.1 h⟩
     have htgtA : TgtSc (.assign cv) Γ (gid cv :: sc) :=
       ⟨List.mem_cons_self, fun y ty hy e => hcvin.1 (e ▸ hctx.vars y ty hy)⟩
     have hcA := scopeA c (.assign cv) st' Γ K (gid cv :: sc) hfc (hctx1.mono_cs (fun f hf => List.mem_append_left _ hf))
       (hA ▸ hdeclA) htgtA
     rw [hA] at hcA
-    have hsub := scopeAfter_sub rA.1 (gid cv :: sc)
-    have hsup := scopeAfter_sup rA.1 (gid cv :: sc)
+    have hsub := fun y => (scopeAfter_mem rA.1 (gid cv :: sc) y).mp
+    have hsup : ∀ y, y ∈ gid cv :: sc → y ∈ scopeAfter rA.1 (gid cv :: sc) := fun y h => (scopeAfter_mem rA.1 (gid cv :: sc) y).mpr (Or.inl h)
     have hctx2 : SCtx file G D (scopeAfter rA.1 (gid cv :: sc)) Γ (calleesA (Γ.map (·.1)) b) :=
       ⟨fun y t hy => hsup _ (hctx1.vars y t hy),
-       fun y hy => by rcases hsub y hy with h | h; exact hctx1.scD y h; exact (hdeclA.2 y h).2.1,
-       fun h => by rcases hsub _ h with h | h; exact hctx1.nob h; exact (hdeclA.2 _ h).2.2 rfl,
+       fun y hy => by rcases hsub y hy with h | h; exact hctx1.scD y h; exact (hdeclA.top y h).2.1,
+       fun h => by rcases hsub _ h with h | h; exact hctx1.nob h; exact (hdeclA.top _ h).2.2 rfl,
        fun f hf => hctx1.cal f (List.mem_append_right _ hf), hctx1.fns⟩
-    have hdeclB : DeclOK D (scopeAfter rA.1 (gid cv :: sc)) rB.1 :=
-      ⟨hndBB, fun y hy => by
-        have := hin y (List.mem_append_right _ hy)
-        refine ⟨fun h => ?_, this.2⟩
-        rcases hsub y h with h | h
-        · rcases List.mem_cons.mp h with rfl | h
-          · exact hcvnd (List.mem_append_right _ hy)
-          · exact this.1 h
-        · exact hdisjAB _ h _ hy rfl⟩
     have hcB := scopeA b .effect rA.2 Γ K _ hfb hctx2 (hB ▸ hdeclB) trivial
     rw [hB] at hcB
     have hcvsc : gid cv ∈ scopeAfter rA.1 (gid cv :: sc) := hsup _ List.mem_cons_self
@@ -875,7 +912,7 @@ theorem scopeC {env : Env} {file : AFile} {G : List String} {D : Names} :
     have hctxD : SCtx file G D sc Γ (calleesD (Γ.map (·.1)) d) := hctx.mono_cs (fun f hf => by simp [calleesC, hf])
     -- a clause assigns only the target and its own declarations: never a variable in scope
     have hnw : ∀ (ra : List (Imm × List GStmt)) (rd : Option (List GStmt)) (z : String), z ∈ sc →
-        (∀ t, m = .assign t → z ≠ gid t) → DeclOKN D sc (armDecls ra ++ optDecls rd) →
+        (∀ t, m = .assign t → z ≠ gid t) → DeclOKA D sc ra rd →
         (∀ y, y ∈ armWrites ra → y ∈ tgtName m ∨ y ∈ armDecls ra) →
         (∀ y, y ∈ optWrites rd → y ∈ tgtName m ∨ y ∈ optDecls rd) → ¬ z ∈ armWrites ra ∧ ¬ z ∈ optWrites rd := by
       intro ra rd z hz hzt hdn hwa hwd
@@ -886,10 +923,10 @@ theorem scopeC {env : Env} {file : AFile} {G : List String} {D : Names} :
       refine ⟨fun h => ?_, fun h => ?_⟩
       · rcases hwa z h with h' | h'
         · exact htg h'
-        · exact (hdn.2 z (List.mem_append_left _ h')).1 hz
+        · exact hdn.nd.1 z h' hz
       · rcases hwd z h with h' | h'
         · exact htg h'
-        · exact (hdn.2 z (List.mem_append_right _ h')).1 hz
+        · exact hdn.nd.2 z h' hz
     cases hsty : s.ty with
     | enum en =>
       rw [hsty] at hcase; simp only at hcase
@@ -913,13 +950,10 @@ theorem scopeC {env : Env} {file : AFile} {G : List String} {D : Names} :
           rw [hshape] at hdecl ⊢
           generalize hst1 : st.check (okImm env (.var x (.enum en))) = st1 at hdecl ⊢
           rw [← hvn] at hdecl ⊢
-          have hdn : DeclOKN D sc (armDecls (compileArms env m st1 arms).1 ++ optDecls (compileDflt env m (compileArms env m st1 arms).2 d).1) := by
-            have h : DeclOKN D sc (ndDecls [GStmt.tswitch (some (vn x)) (.var (vn x) (goTy (.enum en)))
-              (typeCases env (compileArms env m st1 arms).1) (compileDflt env m (compileArms env m st1 arms).2 d).1]) := hdecl
-            rw [ndDecls_tswitch, armDecls_typeCases] at h
-            cases hd : (compileDflt env m (compileArms env m st1 arms).2 d).1 <;> simpa [optDecls, hd] using h
-          have hA := scopeArms arms m st1 Γ K sc (.enumK x (.enum en)) ty hfa hctxA (hdn.sub (List.sublist_append_left _ _)) htgt
-          have hDf := scopeD d m (compileArms env m st1 arms).2 Γ K sc ty hfd hctxD (hdn.sub (List.sublist_append_right _ _)) htgt
+          have hdn : DeclOKA D sc (compileArms env m st1 arms).1 (compileDflt env m (compileArms env m st1 arms).2 d).1 :=
+            declOKA_of_tswitch hdecl
+          have hA := scopeArms arms m st1 Γ K sc (.enumK x (.enum en)) ty hfa hctxA hdn.1 htgt
+          have hDf := scopeD d m (compileArms env m st1 arms).2 Γ K sc ty hfd hctxD hdn.2 htgt
           have hxne : vn x ≠ "_" := fun e => hctx.nob (e ▸ hxsc)
           have hxt : ∀ t', m = .assign t' → vn x ≠ gid t' := fun t' ht' => by subst ht'; exact htgt.2 x t hlt
           obtain ⟨hw1, hw2⟩ := hnw _ _ (vn x) hxsc hxt hdn (writesArms env arms m st1) (writesD env d m _)
@@ -947,13 +981,10 @@ theorem scopeC {env : Env} {file : AFile} {G : List String} {D : Names} :
         simp only [compileTail, hsty, matchKind]
       rw [hshape] at hdecl ⊢
       generalize hst1 : st.check (okImm env s) = st1 at hdecl ⊢
-      have hdn : DeclOKN D sc (armDecls (compileArms env m st1 arms).1 ++ optDecls (compileDflt env m (compileArms env m st1 arms).2 d).1) := by
-        have h : DeclOKN D sc (ndDecls [GStmt.switch (compileImm env s) (valueCases (matchKind .bool) (compileArms env m st1 arms).1)
-          (compileDflt env m (compileArms env m st1 arms).2 d).1]) := hdecl
-        rw [ndDecls_switch, armDecls_valueCases] at h
-        cases hd : (compileDflt env m (compileArms env m st1 arms).2 d).1 <;> simpa [optDecls, hd] using h
-      have hA := scopeArms arms m st1 Γ K sc (.valK .bool) ty hfa hctxA (hdn.sub (List.sublist_append_left _ _)) htgt
-      have hDf := scopeD d m (compileArms env m st1 arms).2 Γ K sc ty hfd hctxD (hdn.sub (List.sublist_append_right _ _)) htgt
+      have hdn : DeclOKA D sc (compileArms env m st1 arms).1 (compileDflt env m (compileArms env m st1 arms).2 d).1 :=
+        declOKA_of_switch hdecl
+      have hA := scopeArms arms m st1 Γ K sc (.valK .bool) ty hfa hctxA hdn.1 htgt
+      have hDf := scopeD d m (compileArms env m st1 arms).2 Γ K sc ty hfd hctxD hdn.2 htgt
       have hc := switch_clean (D := D) h1 hnb h2 (vcases_clean (matchKind .bool) _ hA) hDf
       exact clean_cons hc.1 hc.2 (clean_nil _ _)
     | int bits sg =>
@@ -965,13 +996,10 @@ theorem scopeC {env : Env} {file : AFile} {G : List String} {D : Names} :
         simp only [compileTail, hsty, matchKind]
       rw [hshape] at hdecl ⊢
       generalize hst1 : st.check (okImm env s) = st1 at hdecl ⊢
-      have hdn : DeclOKN D sc (armDecls (compileArms env m st1 arms).1 ++ optDecls (compileDflt env m (compileArms env m st1 arms).2 d).1) := by
-        have h : DeclOKN D sc (ndDecls [GStmt.switch (compileImm env s) (valueCases (matchKind (.int bits sg)) (compileArms env m st1 arms).1)
-          (compileDflt env m (compileArms env m st1 arms).2 d).1]) := hdecl
-        rw [ndDecls_switch, armDecls_valueCases] at h
-        cases hd : (compileDflt env m (compileArms env m st1 arms).2 d).1 <;> simpa [optDecls, hd] using h
-      have hA := scopeArms arms m st1 Γ K sc (.valK (.int bits sg)) ty hfa hctxA (hdn.sub (List.sublist_append_left _ _)) htgt
-      have hDf := scopeD d m (compileArms env m st1 arms).2 Γ K sc ty hfd hctxD (hdn.sub (List.sublist_append_right _ _)) htgt
+      have hdn : DeclOKA D sc (compileArms env m st1 arms).1 (compileDflt env m (compileArms env m st1 arms).2 d).1 :=
+        declOKA_of_switch hdecl
+      have hA := scopeArms arms m st1 Γ K sc (.valK (.int bits sg)) ty hfa hctxA hdn.1 htgt
+      have hDf := scopeD d m (compileArms env m st1 arms).2 Γ K sc ty hfd hctxD hdn.2 htgt
       have hc := switch_clean (D := D) h1 hnb h2 (vcases_clean (matchKind (.int bits sg)) _ hA) hDf
       exact clean_cons hc.1 hc.2 (clean_nil _ _)
     | string =>
@@ -983,13 +1011,10 @@ theorem scopeC {env : Env} {file : AFile} {G : List String} {D : Names} :
         simp only [compileTail, hsty, matchKind]
       rw [hshape] at hdecl ⊢
       generalize hst1 : st.check (okImm env s) = st1 at hdecl ⊢
-      have hdn : DeclOKN D sc (armDecls (compileArms env m st1 arms).1 ++ optDecls (compileDflt env m (compileArms env m st1 arms).2 d).1) := by
-        have h : DeclOKN D sc (ndDecls [GStmt.switch (compileImm env s) (valueCases (matchKind .string) (compileArms env m st1 arms).1)
-          (compileDflt env m (compileArms env m st1 arms).2 d).1]) := hdecl
-        rw [ndDecls_switch, armDecls_valueCases] at h
-        cases hd : (compileDflt env m (compileArms env m st1 arms).2 d).1 <;> simpa [optDecls, hd] using h
-      have hA := scopeArms arms m st1 Γ K sc (.valK .string) ty hfa hctxA (hdn.sub (List.sublist_append_left _ _)) htgt
-      have hDf := scopeD d m (compileArms env m st1 arms).2 Γ K sc ty hfd hctxD (hdn.sub (List.sublist_append_right _ _)) htgt
+      have hdn : DeclOKA D sc (compileArms env m st1 arms).1 (compileDflt env m (compileArms env m st1 arms).2 d).1 :=
+        declOKA_of_switch hdecl
+      have hA := scopeArms arms m st1 Γ K sc (.valK .string) ty hfa hctxA hdn.1 htgt
+      have hDf := scopeD d m (compileArms env m st1 arms).2 Γ K sc ty hfd hctxD hdn.2 htgt
       have hc := switch_clean (D := D) h1 hnb h2 (vcases_clean (matchKind .string) _ hA) hDf
       exact clean_cons hc.1 hc.2 (clean_nil _ _)
     | float b => rw [hsty] at hcase; simp [switchTy] at hcase
@@ -1022,12 +1047,12 @@ theorem scopeC {env : Env} {file : AFile} {G : List String} {D : Names} :
 theorem scopeArms {env : Env} {file : AFile} {G : List String} {D : Names} :
     ∀ (arms : List AArm) (m : Mode) (st : St) (Γ : Ctx) (K : KCtx) (sc : Names) (ak : ArmKind) (ty : Ty),
       fragArms env file G Γ K ak ty arms = true → SCtx file G D sc Γ (calleesArms (Γ.map (·.1)) arms) →
-      DeclOKN D sc (armDecls (compileArms env m st arms).1) → TgtSc m Γ sc →
+      (∀ p, p ∈ (compileArms env m st arms).1 → DeclOK D sc p.2) → TgtSc m Γ sc →
       ∀ p, p ∈ (compileArms env m st arms).1 → Clean D sc p.2
   | [], m, st, Γ, K, sc, ak, ty, _, _, _, _ => by intro p hp; simp [compileArms] at hp
   | .mk lhs body :: rest, m, st, Γ, K, sc, ak, ty, hfrag, hctx, hdecl, htgt => by
     rw [compileArms_cons] at hdecl ⊢
-    rw [armDecls_cons] at hdecl
+    have hdb : DeclOK D sc (compileA env m st body).1 := hdecl _ List.mem_cons_self
     simp only [fragArms, Bool.and_eq_true] at hfrag
     obtain ⟨⟨hhead, _⟩, hfr⟩ := hfrag
     have hctxb : SCtx file G D sc Γ (calleesA (Γ.map (·.1)) body) := hctx.mono_cs (fun f hf => by simp [calleesArms, hf])
@@ -1038,17 +1063,17 @@ theorem scopeArms {env : Env} {file : AFile} {G : List String} {D : Names} :
         cases lhs with
         | tag idx tty =>
           simp only [Bool.and_eq_true] at hhead
-          exact scopeA body m st Γ ((x, idx) :: K) sc hhead.2 hctxb (hdecl.sub (List.sublist_append_left _ _)) htgt
+          exact scopeA body m st Γ ((x, idx) :: K) sc hhead.2 hctxb hdb htgt
         | var y t => simp at hhead
         | prim p t => simp at hhead
       | valK sty =>
         cases lhs with
         | prim p pty =>
           simp only [Bool.and_eq_true] at hhead
-          exact scopeA body m st Γ K sc hhead.2 hctxb (hdecl.sub (List.sublist_append_left _ _)) htgt
+          exact scopeA body m st Γ K sc hhead.2 hctxb hdb htgt
         | var y t => simp at hhead
         | tag idx t => simp at hhead
-    have hrest := scopeArms rest m (compileA env m st body).2 Γ K sc ak ty hfr hctxr (hdecl.sub (List.sublist_append_right _ _)) htgt
+    have hrest := scopeArms rest m (compileA env m st body).2 Γ K sc ak ty hfr hctxr (fun p hp => hdecl p (List.mem_cons_of_mem _ hp)) htgt
     intro p hp
     rcases List.mem_cons.mp hp with rfl | hp
     · exact hbody
@@ -1056,12 +1081,12 @@ theorem scopeArms {env : Env} {file : AFile} {G : List String} {D : Names} :
 theorem scopeD {env : Env} {file : AFile} {G : List String} {D : Names} :
     ∀ (d : ADflt) (m : Mode) (st : St) (Γ : Ctx) (K : KCtx) (sc : Names) (ty : Ty),
       fragD env file G Γ K ty d = true → SCtx file G D sc Γ (calleesD (Γ.map (·.1)) d) →
-      DeclOKN D sc (optDecls (compileDflt env m st d).1) → TgtSc m Γ sc →
+      (match (compileDflt env m st d).1 with | some b => DeclOK D sc b | none => True) → TgtSc m Γ sc →
       CleanOpt D sc (compileDflt env m st d).1
   | .none, m, st, Γ, K, sc, ty, _, _, _, _ => by simp [compileDflt, CleanOpt]
   | .some e, m, st, Γ, K, sc, ty, hfrag, hctx, hdecl, htgt => by
     simp only [fragD, Bool.and_eq_true] at hfrag
-    simp only [compileDflt, optDecls, CleanOpt] at hdecl ⊢
+    simp only [compileDflt, CleanOpt] at hdecl ⊢
     exact scopeA e m st Γ K sc hfrag.1 (hctx.mono_cs (fun f hf => by simpa [calleesD] using hf)) hdecl htgt
 theorem scopeFirst {env : Env} {file : AFile} {G : List String} {D : Names} :
     ∀ (arms : List AArm) (m : Mode) (st : St) (Γ : Ctx) (K : KCtx) (sc : Names) (ty : Ty),
@@ -1097,39 +1122,38 @@ theorem fn_clean {env : Env} {file : AFile} {G : List String} {st : St} {g : AFn
     (hlocal : localOK env file G st g = true) :
     Clean (Goml.Dce.localsOf (compileFn env st g).1) ((compileFn env st g).1.params.map (·.1)) (compileFn env st g).1.body := by
   simp only [localOK, srcLocalOK, goLocalOK, Bool.and_eq_true, Bool.not_eq_true', compileFn_shape] at hlocal
-  obtain ⟨⟨⟨⟨hps, hrs⟩, hfrag⟩, hret⟩, ⟨⟨hnodup0, hblank⟩, hcallees⟩, hfnames⟩ := hlocal
-  have hnodup := of_decide_eq_true hnodup0
-  clear hnodup0
+  obtain ⟨⟨⟨⟨hps, hrs⟩, hfrag⟩, hret⟩, ⟨⟨hscoped, hblank⟩, hcallees⟩, hfnames⟩ := hlocal
   rw [compileFn_shape]
   generalize hrn : "ret" ++ toString st.n = retName at *
   generalize hst1 : (st.next.check (okTy g.ret)).check (g.params.all fun p => okTy p.2) = st1 at *
   generalize hS : (compileA env (.assign retName) st1 g.body).1 = S at *
-  have hlocals : ndLocals
+  simp only [scopedLocalsOK, Bool.and_eq_true, List.map_map, Function.comp_def] at hscoped
+  obtain ⟨-, hsok⟩ := hscoped
+  have hlocalsD : Goml.Dce.localsOf
       { name := fnName g.name, params := g.params.map fun p => (vn p.1, goTy p.2), ret := some (goTy g.ret),
         body := .varDecl (gid retName) (goTy g.ret) none :: (S ++ [.ret (some (.var (gid retName) (goTy g.ret)))]) } =
-      (g.params.map fun p => vn p.1) ++ (gid retName :: ndDecls S) := by
-    simp [ndLocals, ndDecls_varDecl, ndDecls_append, ndDecls_ret, ndDecls, ndDeclsOf, List.map_map, Function.comp_def]
-  have hsubL : ∀ y, y ∈ (g.params.map fun p => vn p.1) ++ (gid retName :: ndDecls S) → y ∈ Goml.Dce.localsOf
-      { name := fnName g.name, params := g.params.map fun p => (vn p.1, goTy p.2), ret := some (goTy g.ret),
-        body := .varDecl (gid retName) (goTy g.ret) none :: (S ++ [.ret (some (.var (gid retName) (goTy g.ret)))]) } := by
-    intro y hy
-    rw [← hlocals] at hy
-    simp only [ndLocals, List.mem_append] at hy
-    simp only [Goml.Dce.localsOf, List.mem_append]
-    exact hy.imp id (ndDecls_sub _ y)
-  rw [hlocals] at hnodup
+      (g.params.map fun p => vn p.1) ++ (gid retName :: (Goml.Dce.allDecls S ++ [])) := by
+    simp [Goml.Dce.localsOf, Goml.Dce.allDecls, Goml.Dce.declsOf, allDecls_append, List.map_map, Function.comp_def]
   simp only [List.map_map, Function.comp_def]
   generalize hD : Goml.Dce.localsOf
       { name := fnName g.name, params := g.params.map fun p => (vn p.1, goTy p.2), ret := some (goTy g.ret),
         body := .varDecl (gid retName) (goTy g.ret) none :: (S ++ [.ret (some (.var (gid retName) (goTy g.ret)))]) } = D at *
-  obtain ⟨hndP, hndR, hdisjPR⟩ := List.nodup_append.mp hnodup
-  obtain ⟨hretS, hndS⟩ := List.nodup_cons.mp hndR
   have hnb : ¬ "_" ∈ D := by
     intro h; rw [List.contains_eq_mem] at hblank; simp [h] at hblank
-  have hPD : ∀ y, y ∈ (g.params.map fun p => vn p.1) → y ∈ D := fun y hy => hsubL y (List.mem_append_left _ hy)
-  have hRD : gid retName ∈ D := hsubL _ (List.mem_append_right _ List.mem_cons_self)
-  have hSD : ∀ y, y ∈ ndDecls S → y ∈ D := fun y hy => hsubL y (List.mem_append_right _ (List.mem_cons_of_mem _ hy))
-  have hretP : ¬ gid retName ∈ (g.params.map fun p => vn p.1) := fun h => hdisjPR _ h _ List.mem_cons_self rfl
+  have hPD : ∀ y, y ∈ (g.params.map fun p => vn p.1) → y ∈ D := fun y hy => by rw [hlocalsD]; exact List.mem_append_left _ hy
+  have hRD : gid retName ∈ D := by rw [hlocalsD]; exact List.mem_append_right _ List.mem_cons_self
+  have hSD : ∀ y, y ∈ Goml.Dce.allDecls S → y ∈ D := fun y hy => by
+    rw [hlocalsD]; exact List.mem_append_right _ (List.mem_cons_of_mem _ (List.mem_append_left _ hy))
+  have hsok' : DeclOK D (g.params.map fun p => vn p.1)
+      (.varDecl (gid retName) (goTy g.ret) none :: (S ++ [.ret (some (.var (gid retName) (goTy g.ret)))])) := by
+    refine sokB_weaken _ (fun y hy => ?_) hsok
+    have hyD : y ∈ D := by
+      rw [hlocalsD]; refine List.mem_append_right _ ?_
+      simpa [Goml.Dce.allDecls, Goml.Dce.declsOf, allDecls_append] using hy
+    have : y ≠ "_" := fun e => hnb (e ▸ hyD)
+    simp [declOKB, hyD, this]
+  obtain ⟨⟨hretP, -, -⟩, hdS⟩ := hsok'.varDecl
+  have hdecl : DeclOK D (gid retName :: g.params.map fun p => vn p.1) S := hdS.append.1
   have hvd := varDecl_ok (D := D) (sc := g.params.map fun p => vn p.1) (ty := goTy g.ret) (v := none) hretP hRD
     (fun e => hnb (e ▸ hRD)) (by simp [undecl]) rfl rfl
   -- the body proper
@@ -1150,11 +1174,6 @@ theorem fn_clean {env : Env} {file : AFile} {G : List String} {st : St} {g : AFn
     · have := List.all_eq_true.mp hfnames e he
       simp only [Bool.and_eq_true, Bool.not_eq_true', List.contains_eq_mem, decide_eq_false_iff_not, bne_iff_ne] at this
       exact this
-  have hdecl : DeclOK D (gid retName :: g.params.map fun p => vn p.1) S :=
-    ⟨hndS, fun y hy => ⟨fun h => by
-        rcases List.mem_cons.mp h with rfl | h
-        · exact hretS hy
-        · exact hdisjPR _ h _ (List.mem_cons_of_mem _ hy) rfl, hSD y hy, fun e => hnb (e ▸ hSD y hy)⟩⟩
   have htgt : TgtSc (.assign retName) (paramCtx g) (gid retName :: g.params.map fun p => vn p.1) :=
     ⟨List.mem_cons_self, fun x t hx e => by
       obtain ⟨p, hp, rfl⟩ := lookupTy_mem hx
@@ -1163,7 +1182,7 @@ theorem fn_clean {env : Env} {file : AFile} {G : List String} {st : St} {g : AFn
   have hbody := scopeA (D := D) g.body (.assign retName) st1 (paramCtx g) [] _ hfrag hctx (hS ▸ hdecl) htgt
   rw [hS] at hbody
   have hretsc : gid retName ∈ scopeAfter S (gid retName :: g.params.map fun p => vn p.1) :=
-    scopeAfter_sup _ _ _ List.mem_cons_self
+    (scopeAfter_mem _ _ _).mpr (Or.inl List.mem_cons_self)
   have hlast : Clean D (scopeAfter S (gid retName :: g.params.map fun p => vn p.1))
       [GStmt.ret (some (.var (gid retName) (goTy g.ret)))] := by
     refine clean_cons ?_ ?_ (clean_nil _ _)
